@@ -185,6 +185,9 @@ fn empty_graph() -> Value {
 }
 
 pub fn run_case(case: &Case) -> RunOutput {
+    if case.cfg.mode == "synth" {
+        return RunOutput { lines: crate::synth::run_synth(case), widths: vec![] };
+    }
     let u = Rc::new(case.u.clone());
     let rec = Rc::new(Recorder::default());
     rec.whitebox.set(case.cfg.whitebox);
